@@ -131,7 +131,7 @@ def _witness(ctor, init, prefix, src, check):
 # for "same source").  `R` is replaced by the repr of the reference contents.
 # ---------------------------------------------------------------------------
 
-_LIST_RAW = 'list.__eq__(x, R) and list.__len__(x) == len(R)'
+_LIST_RAW = 'repr(N(list(list.__iter__(x)))) == repr(N(R))'
 _LIST_OBS = [
     ('list(x)', 'list(x)', None),
     ('len', 'len(x)', None),
@@ -145,7 +145,7 @@ _LIST_OBS = [
     ('reversed', 'list(reversed(x))', None),
     ('bool', 'bool(x)', None),
 ]
-_DICT_RAW = 'list(dict.items(x)) == list(R.items())'
+_DICT_RAW = 'repr(N(list(dict.items(x)))) == repr(N(list(R.items())))'
 _DICT_OBS = [
     ('dict(x)', 'dict(x)', None),
     ('len', 'len(x)', None),
@@ -475,6 +475,12 @@ def list_write_ops(lo, hi, steps, max_new, vals=None, slices=True, multi=True):
     ops.append(Op(f'del x[{i}]', lambda r, i=i: f'list.delitem/{_icls(i, len(r))}'))
     ops.append(Op(f'x.pop({i})', lambda r, i=i: 'list.pop/' + ('empty' if not r else _icls(i, len(r)))))
   ops.append(Op('x.pop()', lambda r: 'list.pop/default' + ('-empty' if not r else '')))
+  # equal-but-distinct replacement values (0 == 0.0 == False): must be stored
+  for i, v in ((0, '0.0'), (0, 'False'), (1, 'True'), (1, '1.0'), (-1, '2.0')):
+    ops.append(Op(f'x[{i}] = {v}', lambda r, i=i: f'list.setitem-equal-value/{_icls(i, len(r))}'))
+    ops.append(Op(f'x.rebind({{{i}: {v}}})', lambda r, i=i: f'list.rebind-equal-value/{_icls(i, len(r)) if i < 0 or i < len(r) else "past-end"}',
+                  ref=_ref_rebind([(i, 'r', eval(v))])))  # pylint: disable=eval-used
+  ops.append(Op('x[0:2] = [0.0, True]', _set_slice_cid(0, 2, None, 2)))
   ops.append(Op("x['a'] = 1", 'list.setitem/non-int'))
   ops.append(Op("del x['a']", 'list.delitem/non-int'))
   ops.append(Op("x.pop('a')", 'list.pop/non-int'))
@@ -823,6 +829,13 @@ def dict_ops(keys=None, vals=None):
              ref=_ref_dict_rebind([(k, {'q': 1})])),
           Op(f'x.update({{"zz": 0}}, {k}=3)', lambda r, p=p: f'dict.update-dict+kwargs/{p(r)}'),
       ]
+  for k, v in (('a', '1.0'), ('a', 'True'), (0, "'z'"), ('b', '2.0'), (1, 'True')):
+    ops += [
+        Op(f'x[{k!r}] = {v}', 'dict.setitem-equal-value'),
+        Op(f'x.update({{{k!r}: {v}}})', 'dict.update-equal-value'),
+        Op(f'x.rebind({{{k!r}: {v}}})', 'dict.rebind-equal-value', ref=_ref_dict_rebind([(k, eval(v))])),  # pylint: disable=eval-used
+        Op(f'x.setdefault({k!r}, {v})', 'dict.setdefault-equal-value'),
+    ]
   ops += [
       Op('x.popitem()', lambda r: 'dict.popitem/' + ('nonempty' if r else 'empty')),
       Op('x.clear()', 'dict.clear'),
